@@ -91,6 +91,23 @@ EXTRA4 = {
  "C19": "; project root itself called LICENSES x VCS x --root x cwd",
  "C20": "; bare (c)-symbol prefix in the universe; licence-less existing headers; several complete notices of one holder in one command; project templates x every holder",
 }
+EXTRA5 = {
+ "C02": "; slice E: tags without a value; the 4096-byte window edge at every byte of a tag line (read whole or not at all)",
+ "C03": "; ignored backup of a licence text inside LICENSES/",
+ "C06": "; extra trees (a root file called LICENSES, a README inside LICENSES/)",
+ "C07": "; prior 'file already holds an unparseable tag'",
+ "C08": "; '#!' first line in the script-language styles; tokens N (snippet block) and R (carriage return as data in an LF file)",
+ "C09": "; start states with an unparseable sidecar / header",
+ "C11": "; option values that cannot be encoded as UTF-8; empty --license",
+ "C12": "; 50-5000 consecutive blocks in a file read in full; --skip-existing on CRLF / CR renderings",
+ "C13": "; a symbolic link to the defective file among lint-file's arguments",
+ "C14": "; tree 'equal-expressions' (one licensing spelled twice) in every slice incl. 64 / 512 hash seeds",
+ "C15": "; path-like identifiers for download",
+ "C16": "; file names of 240-255 bytes x {text, binary} x 5 commands; a LicenseRef text in the I/O-fault tree (18 fault points)",
+ "C17": "; dep5 paragraphs whose License field is no SPDX expression (matching a file or not); REUSE.toml as a symbolic link",
+ "C19": "; nine kinds of failed transfer, an aborted batch counts as a violation",
+ "C20": "; several --year values of which one is a range",
+}
 EXTRA = {
  "C05": "; CLI plumbing slice: 39 globs x REUSE.toml at ./, d/, d/e/ over a tree with prefix-sharing sibling directories (dd/, d2/, d-e/, d/e2/)",
  "C06": "; eleven trees over the whole bundled SPDX list (used and/or provided x txt, md, no extension, subdirectory, ID+.txt)",
@@ -111,7 +128,7 @@ def main():
     for pid in props:
         if pid in CHECKS and os.path.exists(f"{V}/mc/checks/{pid.lower()}.py"):
             cat, tech, text, note, ref = CHECKS[pid]
-            text += EXTRA.get(pid, "") + EXTRA4.get(pid, "")
+            text += EXTRA.get(pid, "") + EXTRA4.get(pid, "") + EXTRA5.get(pid, "")
             checks.append({
                 "property_id": pid,
                 "quick_cmd": f"/venv/bin/python -m mc.run {pid} --tier quick",
